@@ -23,6 +23,14 @@ def gen_env_group(rng, gi):
     if rng.random() < .15: fs.append(["scale"])
     if rng.random() < .15: fs.append(["noise", rng.randrange(1, 9)])
     if rng.random() < .1: fs.append(["sleepy", rng.choice([5, 20]), rng.randrange(100)])
+    r = rng.random()
+    if r < .08:   fs.append(["riffle", rng.choice([2, 3]), rng.randrange(1, 9)])
+    elif r < .16: fs.append(["reservoir", rng.choice([3, 5]), rng.randrange(1, 9)])
+    elif r < .22: fs.append(["sort"])
+    elif r < .28: fs.append(["slice", rng.choice([0, 1]), rng.choice([None, 6]), rng.choice([1, 2])])
+    elif r < .33: fs.append(["binary"])
+    elif r < .38: fs.append(["where", rng.choice([1, 3])])
+    if rng.random() < .12: fs.append(["logged", rng.randrange(1, 9)])
     return g
 
 LRN_KINDS = ["stateful-ap", "stateful-pmf", "stateful-kw", "stateful-a", "stateful-info", "random", "epsilon", "ucb", "corral", "fixed"]
@@ -30,7 +38,7 @@ def gen_learner(rng, li):
     return {"kind": rng.choice(LRN_KINDS + ["stateful-ap", "stateful-kw"]), "tag": f"L{li}", "seed": rng.randrange(1, 20)}
 
 def gen_evaluator(rng, vi):
-    k = rng.choice(["cb", "cb", "cb-seed", "cb-record", "rec", "rec", "func"])
+    k = rng.choice(["cb", "cb", "cb-seed", "cb-record", "rec", "rec", "func", "cb-ips", "rejection"])
     return {"kind": k, "tag": f"V{vi}", "seed": rng.randrange(1, 20), "nrows": rng.choice([2, 4, 6])}
 
 def gen_spec(rng, max_groups=3, max_lrns=3, max_vals=2):
@@ -72,6 +80,15 @@ def build_envs(g):
         elif f[0] == "noise":     envs = envs.noise(context=("g", 0, .1), seed=f[1])
         elif f[0] == "sleepy":    envs = envs.filter(comp.SleepyFilter(f[1], f[2]))
         elif f[0] == "batch":     envs = envs.batch(f[1])
+        elif f[0] == "riffle":    envs = envs.riffle(f[1], f[2])
+        elif f[0] == "reservoir": envs = envs.reservoir(f[1], f[2])
+        elif f[0] == "sort":      envs = envs.sort()
+        elif f[0] == "slice":     envs = envs.slice(f[1], f[2], f[3])
+        elif f[0] == "binary":    envs = envs.binary()
+        elif f[0] == "where":     envs = envs.where(n_interactions=(f[1], None))
+        elif f[0] == "logged":
+            from coba.learners import RandomLearner
+            envs = envs.logged(RandomLearner(seed=f[1]), seed=float(f[1]))
     return list(envs)
 
 def build_learner(l, fail=None):
@@ -92,6 +109,8 @@ def build_evaluator(v, side, fail=None):
     if k == "cb":        return comp.LoggingCB(side, v["tag"])
     if k == "cb-seed":   return comp.LoggingCB(side, v["tag"], seed=v["seed"])
     if k == "cb-record": return comp.LoggingCB(side, v["tag"], record=["reward", "action", "probability", "context"])
+    if k == "cb-ips":    return comp.LoggingCB(side, v["tag"], learn="ips", eval="ips")        # needs logged environments (others fail: logged, no rows)
+    if k == "rejection": return comp.LoggingRejection(side, v["tag"], seed=v["seed"])
     if k == "rec":       return comp.RecEvaluator(v["tag"], side, v["nrows"], **(fail or {}))
     if k == "func":      return comp.rec_function_evaluator
     raise ValueError(k)
